@@ -1,5 +1,7 @@
 import Tengo.Props.C17
 import Tengo.Props.C17Multi
+import Tengo.Props.C17Star
 /-! C17: the per-directive theorems (`C17`: tables, progress, no panic, length, integer digits, `M = G`
 per verb family and for single-directive formats) and `M = G` for whole format strings with any number
-of directives, `%%` and literal text (`C17Multi`), as one module for the checker. -/
+of directives, `%%` and literal text (`C17Multi`), and with the full directive syntax — flag sets, `*`, `[n]` and
+the BAD* renderings (`C17Star`) —, as one module for the checker. -/
